@@ -180,6 +180,107 @@ theorem lookups_raise_documented_only (f : FormatRec) (h : InvF f) (ib : Bool) (
   · intro n; rw [q.getArgument]; exact key _ _ (by intro t h; cases h)
   · intro i; rw [q.getArgumentAt]; exact key _ _ (by intro t h; cases h)
 
+/-! ### The hypotheses, decided
+
+`Op.wf` / the per-element hypothesis of `ctor_inv` are about the REAL element objects (what the
+element constructors produced), `InvBase` is about the REAL base format.  The first two are decided
+by `Op.wfB` / `Elem.wfB` (`Model/Builder.lean`; the driver answers them on the names read from the
+real objects of every case, entry `c06.wf`); the third is discharged for every base that was itself
+built with `ArgsFormat(elements, base)` from such elements (`built_bases_inv`) - there is no other
+way to obtain an `ArgsFormat`. -/
+
+/-- the executable deciders decide exactly the well-formedness hypotheses -/
+theorem wf_decides :
+    (∀ op : Op, op.wfB = true ↔ op.wf) ∧
+    (∀ e : Elem, e.wfB = true ↔ ∀ op, e.toOp? = some op → op.wf) :=
+  ⟨Op.wfB_iff, Elem.wfB_iff⟩
+
+/-- **Every chain of base formats built with `ArgsFormat(elements, previous)` from well-formed
+elements is a well-formed base** (on top of any well-formed base, in particular on none). -/
+theorem built_bases_inv (levels : List (List Elem)) (base : Option FormatRec) (hbase : InvBase base)
+    (hwf : ∀ es ∈ levels, ∀ e ∈ es, e.wfB = true) (base' : Option FormatRec)
+    (h : ctorChain levels base = .ok base') : InvBase base' := by
+  induction levels generalizing base with
+  | nil => simp only [ctorChain] at h; injection h with h; subst h; exact hbase
+  | cons es rest ih =>
+    simp only [ctorChain] at h
+    cases hc : ctor es base with
+    | error e => rw [hc] at h; cases h
+    | ok f =>
+      rw [hc] at h
+      have hf : InvF f :=
+        ctor_inv es base hbase (fun e he => (Elem.wfB_iff e).1 (hwf es (by simp) e he)) f hc
+      exact ih (some f) hf (fun es' h' => hwf es' (by simp [h'])) h
+
+/-- `reachable_inv`, `format_inv`, `format_agrees`, `queries_match_elements` and `argument_rules`
+with every hypothesis decided: for base levels and builder calls whose elements pass the deciders,
+the builder after ANY history of calls on the built base satisfies the invariant, and so does the
+format built from it, which answers every query as the builder does and as the listed elements
+imply. -/
+theorem reachable_inv_decided (levels : List (List Elem)) (ops : List Op)
+    (hl : levels.all (fun es => es.all Elem.wfB) = true) (ho : ops.all Op.wfB = true)
+    (base : Option FormatRec) (hb : ctorChain levels none = .ok base) :
+    let b := run (Builder.empty base) ops
+    Inv b ∧ InvF (format b) ∧ (∀ q, queryF (format b) q = queryB b q) ∧
+    (∀ ib, QueriesMatch (format b) ib) ∧ ArgsOK (dictVals ((format b).getArguments true)) := by
+  have hbase : InvBase base :=
+    built_bases_inv levels none trivial
+      (fun es hes e he => List.all_eq_true.1 (List.all_eq_true.1 hl es hes) e he) base hb
+  have hi : Inv (run (Builder.empty base) ops) :=
+    reachable_inv base hbase ops (fun op hop => (Op.wfB_iff op).1 (List.all_eq_true.1 ho op hop))
+  exact ⟨hi, format_inv _ hi, format_agrees _ hi,
+    fun ib => queries_match_elements _ (format_inv _ hi) ib, argument_rules _ (format_inv _ hi)⟩
+
+/-- **Every format that can exist satisfies the invariant** (`Built`, `Lemmas/Builder.lean`: the
+closure of `None` under `ArgsFormat(elements, base)` and `ArgsFormatBuilder(base)...format` with
+elements that pass the deciders) - so `InvBase base` / `InvF f` is never an assumption about a
+real format: `CommandConfig.build_args_format(parent_format)` stacks, element-list constructors
+and builders can be mixed freely. -/
+theorem built_inv (base : Option FormatRec) (h : Built base) : InvBase base := by
+  induction h with
+  | none => trivial
+  | ctor _ hes hc ih =>
+    exact ctor_inv _ _ ih (fun e he => (Elem.wfB_iff e).1 (List.all_eq_true.1 hes e he)) _ hc
+  | format _ hops ih =>
+    exact format_inv _ (reachable_inv _ ih _ (fun op hop => (Op.wfB_iff op).1 (List.all_eq_true.1 hops op hop)))
+
+/-- every consequence of the invariant, for every format that can exist -/
+theorem built_consistent (f : FormatRec) (h : Built (some f)) :
+    InvF f ∧ (∀ ib, QueriesMatch f ib) ∧ ArgsOK (dictVals (f.getArguments true)) ∧
+    (∀ n, (∀ o1 ∈ dictVals (f.getOptions true), ∀ o2 ∈ dictVals (f.getOptions true),
+        n ∈ o1.names → n ∈ o2.names → o1 = o2) ∧
+      (∀ c1 ∈ f.getCommandOptions true, ∀ c2 ∈ f.getCommandOptions true,
+        n ∈ c1.names → n ∈ c2.names → c1 = c2) ∧
+      (∀ o ∈ dictVals (f.getOptions true), ∀ c ∈ f.getCommandOptions true, n ∈ o.names → n ∉ c.names)) :=
+  have hi : InvF f := built_inv (some f) h
+  ⟨hi, queries_match_elements f hi, argument_rules f hi, names_identify_at_most_one f hi⟩
+
+/-- `ctor_inv` with every hypothesis decided -/
+theorem ctor_inv_decided (levels : List (List Elem)) (es : List Elem)
+    (hl : levels.all (fun es => es.all Elem.wfB) = true) (he : es.all Elem.wfB = true)
+    (base : Option FormatRec) (hb : ctorChain levels none = .ok base)
+    (f : FormatRec) (h : ctor es base = .ok f) : InvF f :=
+  built_bases_inv (levels ++ [es]) none trivial
+    (by
+      intro es' hes' e he'
+      rcases List.mem_append.1 hes' with h1 | h1
+      · exact List.all_eq_true.1 (List.all_eq_true.1 hl es' h1) e he'
+      · rw [List.mem_singleton.1 h1] at he'; exact List.all_eq_true.1 he e he')
+    (some f)
+    (by
+      have key : ∀ (ls : List (List Elem)) (b0 b1 : Option FormatRec), ctorChain ls b0 = .ok b1 →
+          ctorChain (ls ++ [es]) b0 = (match ctor es b1 with | .ok f => .ok (some f) | .error e => .error e) := by
+        intro ls
+        induction ls with
+        | nil => intro b0 b1 h0; simp only [ctorChain] at h0; injection h0 with h0; subst h0; rfl
+        | cons l ls ih =>
+          intro b0 b1 h0
+          simp only [List.cons_append, ctorChain] at h0 ⊢
+          cases hc : ctor l b0 with
+          | error e => rw [hc] at h0; cases h0
+          | ok g => rw [hc] at h0; exact ih (some g) b1 h0
+      rw [key levels none base hb, h])
+
 /-! ### Non-vacuity: a concrete base and builder with colliding names -/
 
 section Examples
@@ -227,6 +328,67 @@ example : (Builder.empty none).hasArgumentAt (-1) true = true ∧
 
 example : Op.wf (.addCommandOption cAdd) := by
   simp [Op.wf, CmdOpt.wf, cAdd]
+
+/-! the decided forms: ALL hypotheses are discharged by evaluation on a two-level base chain with
+colliding names (the second level re-uses `-f`, rejected below) -/
+
+def exLevels : List (List Elem) := [[.opt oFoo, .arg aReq], [.copt cAdd, .name ⟨"cmd".toList, [], 31⟩]]
+def exOps : List Op :=
+  [.addOption oBar, .setOptions [oBaz, oBar], .addArgument aOpt, .addCommandOptions [cAdd], .addArgument aMul]
+
+example : ∃ base, ctorChain exLevels none = .ok base ∧
+    let b := run (Builder.empty base) exOps
+    Inv b ∧ InvF (format b) ∧ (∀ q, queryF (format b) q = queryB b q) ∧
+    (∀ ib, QueriesMatch (format b) ib) ∧ ArgsOK (dictVals ((format b).getArguments true)) :=
+  ⟨_, rfl, reachable_inv_decided exLevels exOps (by decide) (by decide) _ rfl⟩
+
+/-- ... and the history above is not trivial: three of its five calls are rejected -/
+example : (match ctorChain exLevels none with
+    | .error _ => []
+    | .ok base =>
+      (exOps.foldl (fun (acc : Builder × List (Option Err)) op =>
+          let r := step acc.1 op; (r.1, acc.2 ++ [r.2])) (Builder.empty base, [])).2)
+    = [some .cannotAddOption, some .cannotAddOption, none, some .cannotAddOption, none] := by decide
+
+example : ∃ f, ctor [.opt oBaz, .foreign, .arg aOpt] none = .ok f ∧ InvF f :=
+  ⟨_, rfl, ctor_inv_decided [] [.opt oBaz, .foreign, .arg aOpt] (by decide) (by decide) none rfl _ rfl⟩
+
+/-- `step_atomic_inv` on that builder: `--bar` / `-f` is rejected (the base owns `-f`) and the
+builder is exactly what it was -/
+example : ∃ base, ctorChain exLevels none = .ok base ∧
+    (step (run (Builder.empty base) exOps) (.addOption oBar)).1 = run (Builder.empty base) exOps :=
+  ⟨_, rfl, by
+    have h := reachable_inv_decided exLevels exOps (by decide) (by decide) _ rfl
+    have := step_atomic_inv _ (.addOption oBar) (by simp [Op.wf, Opt.wf, oBar]) h.1
+    exact this.2.1 rfl (by decide)⟩
+
+/-- a `CommandConfig.build_args_format`-like stack: a built format on top of a constructed one -/
+example : ∃ f g, ctor [.opt oFoo, .arg aReq] none = .ok g ∧
+    f = format (run (Builder.empty (some g)) [.addCommandName ⟨"cmd".toList, [], 31⟩, .addOptions [oBaz, oBar],
+      .addArguments [aOpt]]) ∧ InvF f ∧ ArgsOK (dictVals (f.getArguments true)) := by
+  refine ⟨_, _, rfl, rfl, ?_⟩
+  have h := built_consistent _ (Built.format (ops := [.addCommandName ⟨"cmd".toList, [], 31⟩,
+    .addOptions [oBaz, oBar], .addArguments [aOpt]])
+    (Built.ctor (es := [.opt oFoo, .arg aReq]) Built.none (by decide) rfl) (by decide))
+  exact ⟨h.1, h.2.2.1⟩
+
+/-- the deciders reject what the constructors reject: a one-letter long name, a two-letter short
+name, a one-letter long alias -/
+example : Opt.wfB { long := "f".toList, short := none, tag := 0 } = false ∧
+    Opt.wfB { long := "foo".toList, short := some "fo".toList, tag := 0 } = false ∧
+    CmdOpt.wfB { cAdd with longAliases := ["b".toList] } = false ∧ CmdOpt.wfB cAdd = true := by decide
+
+/-- `step_atomic_inv`, `listing_order`, `names_identify_at_most_one`, `lookups_raise_documented_only`
+applied to a concrete built format (hypotheses discharged through `ctor_inv_decided`) -/
+example : ∃ g l, ctor [.opt oBaz, .arg aOpt] (some g) = .ok (.mk (some g) l) ∧
+    (FormatRec.mk (some g) l).getArguments true = g.getArguments true ++ l.args := by
+  refine ⟨.mk none { opts := [("foo".toList, oFoo)], optsS := [("f".toList, oFoo)],
+                      args := [("src".toList, aReq)] }, _, rfl, ?_⟩
+  have hg : ctorChain [[.opt oFoo, .arg aReq]] none = .ok (some (.mk none
+      { opts := [("foo".toList, oFoo)], optsS := [("f".toList, oFoo)], args := [("src".toList, aReq)] })) := rfl
+  exact (listing_order _ _ (ctor_inv_decided [[.opt oFoo, .arg aReq]] [.opt oBaz, .arg aOpt] (by decide) (by decide)
+    _ hg _ rfl)).2.2.1
+
 
 end Examples
 
